@@ -440,7 +440,17 @@ def _zfill(it, a, k, n):
     cs, cw = concrete_str(s.z), concrete_int(w)
     if cs is not None and cw is not None:
         return VStr(cs.zfill(cw), s.kind)
-    raise Unsupported("zfill symbolic")
+    # symbolic: the result is an unknown string characterised by what str.zfill guarantees
+    z = z3.String(it.ctx.fresh_name("zfill"))
+    ls = z3.Length(s.z)
+    it.ctx.assume(z3.Length(z) == z3.If(ls >= w, ls, w), "zfill:length")
+    it.ctx.assume(z3.Implies(ls >= w, z == s.z), "zfill:no-padding-needed")
+    ten = z3.IntVal(10)
+    # padding with zeros (after a sign) does not change which number a decimal literal denotes (trusted fact)
+    it.ctx.assume(z3.Implies(INT_OK(s.z, ten), z3.And(INT_OK(z, ten), INT_VAL(z, ten) == INT_VAL(s.z, ten))),
+                  "zfill:int-value-preserved")
+    it.ctx.assume(z3.Implies(z3.InRe(s.z, PLAIN_INT), z3.InRe(z, PLAIN_INT)), "zfill:stays-a-decimal-literal")
+    return VStr(z, s.kind)
 
 
 def _count(it, a, k, n):
